@@ -135,6 +135,13 @@ def generate(rng, tier):
                 op["own_id"] = rng.choice([f"trace {k} ", f" id{k}", f"a\tb {k}"])      # blanks are part of the id
             elif op["own_id"] is not None and rng.random() < 0.15:
                 op["own_id"] = "@future"
+            elif op["own_id"] is not None and rng.random() < 0.15:
+                # ids that look like something with a canonical spelling (UUIDs, hex digests): still opaque text
+                h = f"{k:04x}" + "abcdef0123456789ABCDEF0123456789"[:28]
+                op["own_id"] = rng.choice([
+                    h, h.upper(), f"{h[:8]}-{h[8:12]}-{h[12:16]}-{h[16:20]}-{h[20:32]}".upper(),
+                    "{" + f"{h[:8]}-{h[8:12]}-{h[12:16]}-{h[16:20]}-{h[20:32]}" + "}",
+                    "urn:uuid:" + f"{h[:8]}-{h[8:12]}-{h[12:16]}-{h[16:20]}-{h[20:32]}".lower(), f"0x{k:X}", f"{k:08d}"])
             if op["own_id"] is not None and rng.random() < 0.2:
                 # the id is not a plain str: header values may be bytes (the package's own adapters send such)
                 op["own_id_form"] = rng.choice(["bytes", "strsub"])
